@@ -79,6 +79,7 @@ impl Digest {
     #[verifier::external_body] pub fn update<D: Update, S: AsRef<[u8]>>(d: &mut D, data: S) ensures final(d).absorbed_() == old(d).absorbed_() + data.bytes_v() { unimplemented!() }
     #[verifier::external_body] pub fn chain<D: Update, S: AsRef<[u8]>>(d: D, data: S) -> (r: D) ensures r.absorbed_() == d.absorbed_() + data.bytes_v(), r.rest_() == d.rest_() { unimplemented!() }
     #[verifier::external_body] pub fn finalize(d: Sha256) -> (r: GenericArray<u8, U32>) ensures r@ == spec_sha256(d.absorbed@) { unimplemented!() }
+    #[verifier::external_body] pub fn finalize_reset(d: &mut Sha256) -> (r: GenericArray<u8, U32>) ensures r@ == spec_sha256(old(d).absorbed@), final(d).absorbed@ == Seq::<u8>::empty() { unimplemented!() }
 }
 pub mod digest {
     pub use super::Digest;
